@@ -57,8 +57,9 @@ type Task struct {
 }
 
 type ClockRead struct {
-	Seq uint64
-	Ns  uint64
+	Seq  uint64
+	Ns   uint64
+	Kind uint8 // 0 CurrentTimeMillis, 1 CurrentTimeNano, 2 Now
 }
 
 // Config of one scheduled run.
@@ -126,7 +127,7 @@ func NextSeq() uint64 { gseq++; return gseq }
 func ResetSeq() { gseq = 0 }
 
 //go:norace
-func noteClockRead(ns uint64) {
+func noteClockRead(ns uint64, kind uint8) {
 	s := active
 	if s == nil {
 		return
@@ -134,7 +135,7 @@ func noteClockRead(ns uint64) {
 	t := s.tasks[s.cur]
 	if len(t.ClockReads) < cap(t.ClockReads) {
 		gseq++
-		t.ClockReads = append(t.ClockReads, ClockRead{Seq: gseq, Ns: ns})
+		t.ClockReads = append(t.ClockReads, ClockRead{Seq: gseq, Ns: ns, Kind: kind})
 	}
 }
 
@@ -153,7 +154,7 @@ func NewSched(rng *Rng, clock *Clock, cfg SchedConfig) *Sched {
 // Go registers a task. Must be called before Run.
 func (s *Sched) Go(fn func()) *Task {
 	t := &Task{ID: len(s.tasks), fn: fn}
-	t.ClockReads = make([]ClockRead, 0, 256)
+	t.ClockReads = make([]ClockRead, 0, 1024)
 	t.h.init()
 	s.tasks = append(s.tasks, t)
 	return t
